@@ -195,6 +195,8 @@ def gen_spec(rs, kind=None, big=False):
     title = "".join(rs.choice(list("abcdefghij KLMNOP 0123456789 _-+,.;:()[]=")) for _ in range(int(rs.randint(1, 40))))
     if rs.randint(0, 8) == 0:
         title = " " + title + "  "
+    if rs.randint(0, 12) == 0:
+        title = ""                                                  # an empty title line is a title like any other
     spec = {"title": title, "box": box, "species": species, "tokens": tokens, "mols": mols,
             "load_order": load_order, "not_loaded": not_loaded, "resid0": resid0,
             "sys_vel": bool(rs.randint(0, 5) == 0), "rand_seed": int(rs.randint(0, 2 ** 31 - 1))}
@@ -557,8 +559,6 @@ def oracle_session(spec, obs, live=None):
 def in_domain(spec, complete):
     """the property's statement presupposes that the write can succeed at all: the two resolutions of every complete
     species have the same number of residues, and the end molecules agree on having velocities"""
-    if spec["title"] == "":
-        return False       # see docs/design_notes/C05.md: an empty title line makes the writer raise IndexError
     vel = set()
     for k in complete:
         sp = spec["species"][k]
@@ -802,6 +802,7 @@ def corpus_specs():
         while spec["pattern"] != pat:
             spec = gen_spec(rs, kind=pat)
         out.append(spec)
+    out.append(empty_title_spec(rs))
     return out
 
 
@@ -859,7 +860,6 @@ def correspondence(ctx):
     specs = corpus_specs() + [gen_spec(rs) for _ in range(n)]
     specs.append(shipped_spec(ctx.n(10, 40)))
     specs.append(shipped_spec(ctx.n(10, 40), pattern="late_end"))
-    specs.append(empty_title_spec(rs))
     if not ctx.quick:
         # 100 + 100 molecules (3000 written atoms): the writer model rewrites its byte list at every write, the whole
         # box (9000 atoms) is beyond vm_compute's reach in K and goes through the S oracle (oracle(), thorough tier)
@@ -951,10 +951,12 @@ def wrap_spec(rs):
 
 
 def empty_title_spec(rs):
-    """an input whose title line is empty: the comment setter leaves '' and GroFile._setup_write_file evaluates
-    comment[-1] -> IndexError at the first writeline, an empty output file is left behind (model: Err EIndex from
-    the writer).  K compares it; the S oracle treats it as outside the domain (reported, see the design note)."""
+    """an input whose title line is empty (fixed: /repo efbff8f).  Before the repair the comment setter left '' and
+    GroFile._setup_write_file evaluated comment[-1] -> IndexError at the first writeline, leaving an empty output
+    file.  Witness kept in the corpus: the output's title line must be empty too."""
     spec = gen_spec(rs, kind="normal")
+    while not in_domain(spec, [op[1] for op in spec["ops"] if op[0] == "end"]):
+        spec = gen_spec(rs, kind="normal")
     spec["title"] = ""
     spec["pattern"] = "empty_title"
     return spec
